@@ -151,13 +151,11 @@ def showParse (r : Bytes × List (Bytes × Bytes) × MT.PErr) : String :=
 def isAsciiBytes (b : Bytes) : Bool := b.all (· < 0x80)
 
 /-- the start tags computed by the tokenizer model against the ones the real x/net/html tokenizer reported;
-    `none` from the model = an attribute value contains `&` (character references are not modelled) -/
+    character references in attribute values included (Model/HtmlUnescape.lean) -/
 def tagsDiff (h : Bytes) (goTags : List Charset.Tag) : String :=
-  match HtmlTok.startTags h with
-  | none => ""
-  | some mt =>
-    if mt.map (fun t => (t.name, t.attrs)) == goTags.map (fun t => (t.name, t.attrs)) then ""
-    else s!"DIFF htmltok model-tags={mt.length} go-tags={goTags.length}"
+  let mt := HtmlTok.startTagsFull h
+  if mt.map (fun t => (t.name, t.attrs)) == goTags.map (fun t => (t.name, t.attrs)) then ""
+  else s!"DIFF htmltok model-tags={mt.length} go-tags={goTags.length}"
 
 def showInst : Option Bytes → String
   | none => "~"
@@ -502,7 +500,7 @@ def handle (line : String) : String :=
         let mi := XmlTok.firstProcInst (trimLWS h)
         let dxi := if mi == ins then "" else s!"DIFF xmlinst model={showInst mi}"
         let dht := tagsDiff h tg
-        let ext : Ext := { cust := fun _ _ _ => false, htmlToks := fun x => (HtmlTok.startTags x).getD tg, xmlInst := fun x => XmlTok.firstProcInst (trimLWS x) }
+        let ext : Ext := { cust := fun _ _ _ => false, htmlToks := fun x => HtmlTok.startTagsFull x, xmlInst := fun x => XmlTok.firstProcInst (trimLWS x) }
         let cs := match chain with
           | [] => []
           | leaf :: _ => charsetFor ext leaf.mime h
@@ -587,7 +585,7 @@ def handle (line : String) : String :=
             | [] => []
             | leaf :: _ => MT.withCharset leaf.mime ccs
           if mc != goChain then s!"DIFF closed-detect chain model={mc}"
-          else if (HtmlTok.startTags h).isNone || !isAsciiBytes ccs then ""
+          else if !isAsciiBytes ccs then ""
           else if mc ++ " " ++ bhex ms == goRes then "" else s!"DIFF closed-detect string model={bhex ms}"
         -- a detector that wrote into its input (harness verdict `W`): what the following detectors see — and what
         -- the caller's buffer holds afterwards — then depends on how far the walk got
@@ -615,7 +613,7 @@ def handle (line : String) : String :=
       match unhex hx, parseTags toks with
       | some raw, some tg =>
         let dt := tagsDiff raw tg
-        let mtg := (HtmlTok.startTags raw).getD tg
+        let mtg := HtmlTok.startTagsFull raw
         let m := bhex (Charset.fromHTML raw mtg)
         let d := if m == goRes || !isAsciiBytes (Charset.fromHTML raw mtg) then "" else s!"DIFF cs-html model={m}"
         let all := [dt, d].filter (· != "")
